@@ -155,6 +155,40 @@ func fillNils(v any) any {
 	return v
 }
 
+// emptyInserted reports whether tr holds, at a position absent from orig, an empty object
+// where the canonical completion ar holds a non-empty one: a container inserted without any
+// default inside it.
+func emptyInserted(orig, tr, ar any) bool {
+	mt, ok := tr.(map[string]any)
+	if !ok {
+		return false
+	}
+	mo, _ := orig.(map[string]any)
+	ma, _ := ar.(map[string]any)
+	for k, vt := range mt {
+		vo, present := mo[k]
+		if et, ok := vt.(map[string]any); ok && len(et) == 0 && !present {
+			if ea, ok := ma[k].(map[string]any); ok && len(ea) > 0 {
+				return true
+			}
+		}
+		if emptyInserted(vo, vt, ma[k]) {
+			return true
+		}
+	}
+	return false
+}
+
+// typedTargets: the same document held by typed Go maps (a document that does not fit is skipped)
+func typedTargets() []func() any {
+	return []func() any{
+		func() any { return &map[string]map[string]any{} },
+		func() any { return &map[string]map[string]map[string]any{} },
+		func() any { return &map[string]map[string]int{} },
+		func() any { return &map[string]map[string]map[string]string{} },
+	}
+}
+
 func (c *DefaultsCase) runImpl() string {
 	var s js.Schema
 	if err := json.Unmarshal([]byte(renderJSON(c.Doc)), &s); err != nil {
@@ -169,7 +203,10 @@ func (c *DefaultsCase) runImpl() string {
 		return c.ID + " unm=ok res=err"
 	}
 	var outs []string
-	lawIdem, lawExt, lawNil := "1", "1", "1"
+	lawIdem, lawExt, lawNil, lawTyped := "1", "1", "1", "1"
+	schemaHasNull := strings.Contains(renderJSON(c.Doc), "null")
+	nTyped := 0
+	why := "-"
 	for _, d := range c.Docs {
 		var v, orig any
 		json.Unmarshal([]byte(renderJSON(d)), &v)
@@ -205,8 +242,46 @@ func (c *DefaultsCase) runImpl() string {
 		} else if b3, _ := json.Marshal(fillNils(w)); string(b3) != string(b1) {
 			lawNil = "0"
 		}
+		hasNull := schemaHasNull || strings.Contains(renderJSON(d), "null") || strings.Contains(renderJSON(d), "-0") // (-0 is 0 in an int)
+		// the same document held by typed maps: completed the same way where the element types can
+		// hold the defaults (tr == ar); where they cannot, what is there lies between the original and
+		// the canonical completion and no container is inserted empty
+		for ti, mk := range typedTargets() {
+			if hasNull {
+				break // null means "absent value" to a typed map and "the value null" to an interface: not comparable
+			}
+			tp := mk()
+			if json.Unmarshal([]byte(renderJSON(d)), tp) != nil {
+				continue
+			}
+			var terr error
+			if o := guarded(func() { terr = rs.ApplyDefaults(tp) }); o != "" {
+				lawTyped = "0"
+				continue
+			}
+			if terr != nil {
+				continue // a default that the element type cannot hold
+			}
+			nTyped++
+			bt, _ := json.Marshal(tp)
+			var tr any
+			json.Unmarshal(bt, &tr)
+			if ti < 2 && string(bt) != string(b1) {
+				lawTyped = "0"
+				why = fmt.Sprintf("t%d:differs:%s/%s", ti, bt, b1)
+			}
+			if !extends(orig, tr) || !extends(tr, v) || emptyInserted(orig, tr, v) {
+				lawTyped = "0"
+				why = fmt.Sprintf("t%d:between:%v,%v,%v:%s/%s/%s", ti, extends(orig, tr), extends(tr, v), emptyInserted(orig, tr, v), renderJSON(d), bt, b1)
+			}
+			rs.ApplyDefaults(tp)
+			if bt2, _ := json.Marshal(tp); string(bt2) != string(bt) {
+				lawTyped = "0"
+				why = fmt.Sprintf("t%d:idem", ti)
+			}
+		}
 	}
-	return fmt.Sprintf("%s unm=ok res=ok out=%s law_idempotent=%s law_extends=%s law_nilmap=%s", c.ID, strings.Join(outs, ";"), lawIdem, lawExt, lawNil)
+	return fmt.Sprintf("%s unm=ok res=ok out=%s law_idempotent=%s law_extends=%s law_nilmap=%s law_typed=%s impl_typed=%d impl_typedwhy=%s", c.ID, strings.Join(outs, ";"), lawIdem, lawExt, lawNil, lawTyped, nTyped, strings.ReplaceAll(why, " ", "_"))
 }
 
 func init() {
